@@ -187,7 +187,9 @@ func (c CompareLine) HasNest() bool {
 // String returns the Comparison like as a string.
 func (c CompareLine) String() string {
 	if c.IsBool {
-		return "s[j]." + c.Accessor
+		// false sorts before true; this must also hold when the bool is the last key,
+		// where there is no preceding equality check (Less(i, i) must be false).
+		return "!s[i]." + c.Accessor + " && s[j]." + c.Accessor
 	}
 	return "s[i]." + c.Accessor + " < " + "s[j]." + c.Accessor
 }
